@@ -124,6 +124,31 @@ Proof.
   destruct H as [->|H]; [lia|]. specialize (IH H). lia.
 Qed.
 
+Lemma min_index_le (cols : list (list Z)) x : In x (concat cols) -> (min_index cols <= x)%Z.
+Proof.
+  unfold min_index. induction (concat cols) as [|y l IH]; simpl; intros H; [contradiction|].
+  destruct H as [->|H]; [lia|]. specialize (IH H). lia.
+Qed.
+
+Lemma min_index_bound (cols : list (list Z)) b :
+  (b <= 0)%Z -> (forall x, In x (concat cols) -> (b <= x)%Z) -> (b <= min_index cols)%Z.
+Proof.
+  intros Hb Hall. unfold min_index. induction (concat cols) as [|y l IH]; simpl; [lia|].
+  assert (b <= y)%Z by (apply Hall; left; reflexivity).
+  assert (b <= fold_right Z.min 0%Z l)%Z by (apply IH; intros; apply Hall; right; assumption). lia.
+Qed.
+
+Lemma negative_indices_false ji wi :
+  negative_indices ji wi = false <->
+  (forall x, In x (concat ji) -> (-1 <= x)%Z) /\ (forall x, In x (concat wi) -> (0 <= x)%Z).
+Proof.
+  unfold negative_indices. rewrite orb_false_iff, !Z.ltb_ge. split.
+  - intros [A B]. split; intros x Hx.
+    + pose proof (min_index_le _ _ Hx). lia.
+    + pose proof (min_index_le _ _ Hx). lia.
+  - intros [A B]. split; apply min_index_bound; auto; lia.
+Qed.
+
 Lemma check_source_ok s m : check_source s m = Ok tt ->
   (m < Z.of_nat (src_len s))%Z /\ src_ncomp s = 1.
 Proof.
@@ -196,6 +221,7 @@ Definition decode (d : skin_desc) (js ms ws wjs : src) : outcome skin_view :=
   if code_rejects_long_stream && negb (Nat.eqb (nind * stop) (length (sd_v d))) then Raise DaeMalformed else
   let ji := map (column (Z.to_nat (vp_oj p))) groups in
   let wi := map (column (Z.to_nat (vp_ow p))) groups in
+  if negative_indices ji wi then Raise DaeMalformed else
   match check_source wjs (max_index ji) with
   | Raise e => Raise e
   | Ok _ =>
@@ -225,6 +251,7 @@ Proof.
   destruct (negb (Nat.eqb (length (names_of js)) (length (vals_of ms) / 16))); [intro H; inversion H; reflexivity|].
   destruct (split_by_vcount _ _ _ _) as [[gs st]|e] eqn:Es.
   - destruct (code_rejects_long_stream && _); [intro H; inversion H; reflexivity|].
+    destruct (negative_indices _ _); [intro H; inversion H; reflexivity|].
     destruct (check_source wjs _) eqn:C1; [|intro H; inversion H; subst; eapply check_source_raise; eauto].
     destruct (check_source ws _) eqn:C2; [discriminate|intro H; inversion H; subst; eapply check_source_raise; eauto].
   - intro H; inversion H; subst. eapply split_raise; eauto.
@@ -243,8 +270,8 @@ Lemma decode_ok d js ms ws wjs s :
   (forall i, i < length (sd_vcount d) -> nth i (sv_groups s) [] = spec_group nind (sd_vcount d) (sd_v d) i) /\
   sv_joint_index s = map (column (Z.to_nat (vp_oj p))) (sv_groups s) /\
   sv_weight_index s = map (column (Z.to_nat (vp_ow p))) (sv_groups s) /\
-  (forall x, In x (concat (sv_joint_index s)) -> (x < Z.of_nat (src_len wjs))%Z) /\
-  (forall x, In x (concat (sv_weight_index s)) -> (x < Z.of_nat (src_len ws))%Z) /\
+  (forall x, In x (concat (sv_joint_index s)) -> (-1 <= x < Z.of_nat (src_len wjs))%Z) /\
+  (forall x, In x (concat (sv_weight_index s)) -> (0 <= x < Z.of_nat (src_len ws))%Z) /\
   sv_joint_matrices s = combine (names_of js) (chunk 16 (vals_of ms)) /\
   sv_bind_shape s = bind_of d.
 Proof.
@@ -254,8 +281,10 @@ Proof.
   destruct (negb (Nat.eqb (length (names_of js)) (length (vals_of ms) / 16))) eqn:M2; [discriminate|].
   destruct (split_by_vcount _ _ _ _) as [[gs st]|e] eqn:Es; [|discriminate].
   destruct (code_rejects_long_stream && _) eqn:L; [discriminate|].
+  destruct (negative_indices _ _) eqn:Ng; [discriminate|].
   destruct (check_source wjs _) as [[]|] eqn:C1; [|discriminate].
   destruct (check_source ws _) as [[]|] eqn:C2; [|discriminate].
+  apply negative_indices_false in Ng. destruct Ng as [Ng1 Ng2].
   inversion H; subst s; clear H.
   cbn [sv_nindices sv_groups sv_joint_index sv_weight_index sv_joint_matrices sv_bind_shape].
   apply negb_false_iff, Nat.eqb_eq in B. apply negb_false_iff, Nat.eqb_eq in M1.
@@ -266,8 +295,8 @@ Proof.
   simpl in He. subst st.
   apply check_source_ok in C1. apply check_source_ok in C2. destruct C1 as [C1 _], C2 as [C2 _].
   repeat split; auto.
-  - intros x Hx. pose proof (max_index_ge _ _ Hx). lia.
-  - intros x Hx. pose proof (max_index_ge _ _ Hx). lia.
+  - pose proof (max_index_ge _ _ H). lia.
+  - pose proof (max_index_ge _ _ H). lia.
 Qed.
 
 (* ------------------------------------------------------------------ rejection and acceptance *)
@@ -294,13 +323,18 @@ Definition beyond (nind col : nat) (vcounts : list nat) (v : list Z) (len : nat)
   exists i row, i < length vcounts /\ In row (spec_group nind vcounts v i) /\
                 (Z.of_nat len <= nth col row 0)%Z.
 
+Definition below (nind col : nat) (vcounts : list nat) (v : list Z) (bound : Z) : Prop :=
+  exists i row, i < length vcounts /\ In row (spec_group nind vcounts v i) /\ (nth col row 0 < bound)%Z.
+
 Definition spec_malformed (d : skin_desc) (js ms ws wjs : src) : Prop :=
   let p := pick_vw (sd_vw d) in
   length (vals_of ms) mod 16 <> 0 \/
   length (names_of js) <> length (vals_of ms) / 16 \/
   length (sd_v d) <> nind_of d * sum_nat (sd_vcount d) \/
   beyond (nind_of d) (Z.to_nat (vp_oj p)) (sd_vcount d) (sd_v d) (src_len wjs) \/
-  beyond (nind_of d) (Z.to_nat (vp_ow p)) (sd_vcount d) (sd_v d) (src_len ws).
+  beyond (nind_of d) (Z.to_nat (vp_ow p)) (sd_vcount d) (sd_v d) (src_len ws) \/
+  below (nind_of d) (Z.to_nat (vp_oj p)) (sd_vcount d) (sd_v d) (-1) \/
+  below (nind_of d) (Z.to_nat (vp_ow p)) (sd_vcount d) (sd_v d) 0.
 
 Lemma decode_rejects d js ms ws wjs :
   spec_malformed d js ms ws wjs -> decode d js ms ws wjs = Raise DaeMalformed.
@@ -308,7 +342,15 @@ Proof.
   intro Hbad. destruct (decode d js ms ws wjs) as [s|ex] eqn:E.
   - exfalso. pose proof (decode_ok _ _ _ _ _ _ E) as K. cbv zeta in K.
     destruct K as (_ & K1 & K2 & K3 & _ & K5 & K6 & K7 & K8 & K9 & K10 & _).
-    destruct Hbad as [B|[B|[B|[B|B]]]]; try congruence; try lia.
+    destruct Hbad as [B|[B|[B|[B|[B|[B|B]]]]]]; try congruence; try lia.
+    + destruct B as (i & row & Hi & Hr & Hx). rewrite <- K6 in Hr by exact Hi.
+      assert (Hg : In (nth i (sv_groups s) []) (sv_groups s)) by (apply nth_In; lia).
+      pose proof (in_column_concat (Z.to_nat (vp_oj (pick_vw (sd_vw d)))) _ _ _ Hr Hg) as Hin.
+      rewrite <- K7 in Hin. specialize (K9 _ Hin). lia.
+    + destruct B as (i & row & Hi & Hr & Hx). rewrite <- K6 in Hr by exact Hi.
+      assert (Hg : In (nth i (sv_groups s) []) (sv_groups s)) by (apply nth_In; lia).
+      pose proof (in_column_concat (Z.to_nat (vp_ow (pick_vw (sd_vw d)))) _ _ _ Hr Hg) as Hin.
+      rewrite <- K8 in Hin. specialize (K10 _ Hin). lia.
     + destruct B as (i & row & Hi & Hr & Hx). rewrite <- K6 in Hr by exact Hi.
       assert (Hg : In (nth i (sv_groups s) []) (sv_groups s)) by (apply nth_In; lia).
       pose proof (in_column_concat (Z.to_nat (vp_oj (pick_vw (sd_vw d)))) _ _ _ Hr Hg) as Hin.
@@ -339,13 +381,24 @@ Proof.
   rewrite L.
   assert (H0 : nind_of d * 0 <= length (sd_v d)) by lia.
   destruct (split_ok _ _ _ _ _ _ H0 Hs) as (_ & Hl & _ & Hn).
+  assert (Ng : negative_indices (map (column (Z.to_nat (vp_oj (pick_vw (sd_vw d))))) gs)
+                                (map (column (Z.to_nat (vp_ow (pick_vw (sd_vw d))))) gs) = false).
+  { apply negative_indices_false. split; intros x Hx;
+      destruct (column_concat_in _ _ _ Hx) as (i & row & Hi & Hr & ->).
+    - destruct (Z.leb_spec (-1) (nth (Z.to_nat (vp_oj (pick_vw (sd_vw d)))) row 0%Z)) as [|Hlt]; [assumption|].
+      exfalso. apply Hgood. do 5 right. left.
+      exists i, row. rewrite Hl in Hi. rewrite Hn in Hr by exact Hi. repeat split; auto.
+    - destruct (Z.leb_spec 0 (nth (Z.to_nat (vp_ow (pick_vw (sd_vw d)))) row 0%Z)) as [|Hlt]; [assumption|].
+      exfalso. apply Hgood. do 6 right.
+      exists i, row. rewrite Hl in Hi. rewrite Hn in Hr by exact Hi. repeat split; auto. }
+  rewrite Ng.
   rewrite check_source_within.
   - rewrite check_source_within.
     + eexists; reflexivity.
     + exact Hnw.
     + intros x Hx. destruct (column_concat_in _ _ _ Hx) as (i & row & Hi & Hr & ->).
       destruct (Z.ltb_spec (nth (Z.to_nat (vp_ow (pick_vw (sd_vw d)))) row 0%Z) (Z.of_nat (src_len ws))) as [|Hge]; [assumption|].
-      exfalso. apply Hgood. right. right. right. right.
+      exfalso. apply Hgood. right. right. right. right. left.
       exists i, row. rewrite Hl in Hi. rewrite Hn in Hr by exact Hi. repeat split; auto.
   - exact Hnj.
   - intros x Hx. destruct (column_concat_in _ _ _ Hx) as (i & row & Hi & Hr & ->).
